@@ -88,10 +88,14 @@ func (pw *packetWriter) Write(p []byte) (n int, err error) {
 func (pw *packetWriter) ReadFrom(r io.Reader) (n int64, err error) {
 	buf := pw.pkt[:]
 	for {
-		// a reader may return fewer bytes than asked for, so fill a whole packet
-		nr, er := io.ReadFull(r, buf)
-		if er == io.ErrUnexpectedEOF {
-			er = io.EOF // the partial packet is reported below
+		// a reader may return fewer bytes than asked for, so fill a whole packet;
+		// the reader's error is kept as it is (a partial packet is reported below)
+		nr := 0
+		var er error
+		for nr < PacketSize && er == nil {
+			var k int
+			k, er = r.Read(buf[nr:])
+			nr += k
 		}
 		if nr == PacketSize {
 			nw, ew := pw.WritePacket(&pw.pkt)
